@@ -1,8 +1,10 @@
 """C04 — no PPPoE session gets IP service without successful authentication."""
+import os
+
 import verif as V
 
 PROP = "C04"
-SPEC = ["Bng.Spec.C04", "Bng.Spec.C04Auth", "Bng.Spec.C16PppoeWhole"]
+SPEC = ["Bng.Spec.C04", "Bng.Spec.C04Auth", "Bng.Spec.C16PppoeWhole", "Bng.Spec.C04Guards"]
 COMPS = [
     V.Component("pppoesrv", monitors=["service-without-auth", "ipcp-without-auth", "foreign-mac", "obs-roundtrip"]),
     V.Component("pppauth", monitors=["success-without-accept", "wrong-protocol", "stale-challenge", "id-mismatch"]),
@@ -32,11 +34,28 @@ ASSUME = [
     "the monitor is proved silent on every model history (monitor_silent_on_model) and fires on the pre-fix tree 98663f9; "
     "the driver's rendering/parsing of observations is in the trusted base",
     "handlers run on the single receive goroutine (no concurrent frame handling is modelled)",
+    "translator harness/cmd/extractguards (go/ast): Gen/Guards.lean lists the leading early-return guards of handlePADT, "
+    "handleSession, handleIPCP and handleIPPacket as text; Spec.C04Guards decides that the owner, authentication and "
+    "Established gates are there and first - presence and position only (an equivalent rewrite of a gate breaks it too)",
 ]
+GUARDS = os.path.join(V.LEAN, "Bng", "Gen", "Guards.lean")
+
+
+def regenerate(ctx):
+    """translator: re-extract the handlers' guard table from V.REPO's working tree at the start of every run"""
+    with V.Lock("lean"):
+        with V.Lock("gomod"):
+            rc, out = V.sh(["go", "run", "./cmd/extractguards", "-repo", V.REPO, "-out", GUARDS], cwd=V.HARNESS, env=V.env_go())
+        if rc != 0 and os.path.exists(GUARDS):
+            os.remove(GUARDS)
+    if rc != 0:
+        msg = "; ".join(l for l in out.splitlines() if l.startswith("extractguards:") and "wrote" not in l) or out[-800:]
+        ctx.broken.append(("translator", "extract guards failed: " + msg))
+    ctx.notes.append("extractguards rc=%d" % rc)
 
 
 def run(tier, seed):
-    return V.standard_check(PROP, SPEC, COMPS, LEVEL, ASSUME, tier, seed)
+    return V.standard_check(PROP, SPEC, COMPS, LEVEL, ASSUME, tier, seed, pre=regenerate)
 
 
 def replay(path):
